@@ -258,7 +258,7 @@ let print_views (out : Buffer.t) ek m (st : state) (s : (bytes, 'u) sys) (prev :
   now
 
 (* ---------- running ---------- *)
-let uint_k = function "u8" -> Some 0 | "u16" -> Some 1 | "u32" -> Some 2 | "u64" -> Some 3
+let uint_k = function "u8" -> Some 0 | "u16" -> Some 1 | "u32" -> Some 2 | "u64" | "fu64" -> Some 3
   | "u128" -> Some 4 | "u256" -> Some 5 | _ -> None
 
 let ekind_of (kind : string) : bytes ekind option =
@@ -276,6 +276,12 @@ let run_history (type u) (out : Buffer.t) (ek : bytes ekind) (m : (bytes, u) uma
   let cov = Hashtbl.create 16 in
   (try
     List.iteri (fun idx line ->
+      if String.length line >= 6 && String.sub line 0 6 = "fault " then begin
+        (* fault injection into element callbacks exists only in the implementation harness (kind fu64):
+           the model has no failing element type; `fault k` itself changes nothing *)
+        Buffer.add_string out (Printf.sprintf "R %d ok\n" (idx + 1));
+        prev := print_views out ek m !st !s !prev
+      end else
       let o = parse_op line in
       let ((res, st'), tags) = run_cov (step ek m hash_h capn vec_based !s o) !st [] in
       List.iter (fun t -> let t = int_of_nat t in
